@@ -16,7 +16,7 @@ SPECS = _t['specs']
 TRAITS = _t['traits']
 RULE = ('requests (value, format spec index, width): all %d combinations of {no align, <, ^, >} x {default fill, *, 0, a non-ASCII fill} x '
         '+ x # x 0 x {no width, width} for all 8 traits; widths none, 0, 1, len-1, len, len+1, 40, 255, uniform 0..=255; values with '
-        'interior zero digits and digits with leading zero nibbles/bits, zero, negative values, 2^k-1 / 2^k for every bit length k (every 8th for types wider than 512 bits in the quick tier). The expected text comes from a '
+        'interior zero digits and digits with leading zero nibbles/bits, zero, negative values, 2^k-1 / 2^k for every bit length k (a seed-dependent stride when the budget of the configuration is smaller than its bit width). The expected text comes from a '
         're-implementation of Formatter::pad_integral which is calibrated on every run against the primitive formatted with the '
         'same literal format string. Non-trivial: interior bnum digit that needs zero padding, negative value, width above the '
         'natural length with a sign-aware zero flag or explicit fill; distinct = distinct request lines') % len(SPECS)
@@ -69,7 +69,8 @@ def natural_len(cfg, v, ti):
 def requests(cfg, rng, n, tier, part, nparts, st):
     ns = len(SPECS)
     base = rng.randrange(ns)
-    stride = 1 if (tier == 'thorough' or cfg.bits <= 512) else 8
+    # bounded by the budget of the configuration: every bit length when affordable, otherwise a seed-dependent stride
+    stride = max(1, -(-(cfg.bits + 1) // max(256, 2 * n * nparts)))
     ks = list(range(rng.randrange(stride), cfg.bits + 1, stride))
     lo, hi = (len(ks) * part // nparts, len(ks) * (part + 1) // nparts)
     for k in ks[lo:hi]:
